@@ -12,7 +12,7 @@ holds, `WFB` the state invariant between two pushes (Build/Inv.lean).
   R2  push_interp       the appended row is the documented one: `Spec.interpDT` of the value at the builder's field
       newDT_shape / newRoot_shape   `build_builder` establishes the `Shape` relation R2 is indexed by
   R3  runRows_interp    after all rows: the root's rows are `interpRow` of the records, all columns at `rows.length`
-      (coverage of R2/R3: every builder family — view builders under `ViewSmall`, dictionaries with integer keys
+      (coverage of R2/R3: every builder family — view builders included, dictionaries with integer keys
       and Utf8/LargeUtf8 values; values without raw key/value call streams — notes/C01.md)
 The end-to-end composition with the physical layer (`finish_decode`) is `C01_build_decode` in Props/C01.lean.
 
@@ -175,24 +175,25 @@ where
 /-- **R2.** The row a successful push appends is the documented one: `Spec.interpDT` at the field the builder was
 built for (records matched by name, numbers by value, variants by index) — for every builder family `Shape`
 covers (all but dictionaries with a non-integer key builder or a value builder other than Utf8/LargeUtf8) and every
-value without raw key/value call streams.  `ViewSmall b'`: every bytes-view buffer of the state after the push is
-below 4 GiB (a descriptor holds 32-bit lengths/offsets); vacuous without view builders (`Build.NoView.small`).  Together with R1: C01 (content), C05 (ok ⇒ exact) and
+value without raw key/value call streams.  View builders: a successful push keeps every length and buffer offset
+≤ `i32::MAX` (the builder refuses more), so the descriptor reads back exactly the pushed bytes; `WFB` carries the
+buffer bound (`WFB_small`), no size hypothesis is needed.  Together with R1: C01 (content), C05 (ok ⇒ exact) and
 C11 (the row depends on the value only through `interpDT`). -/
 theorem push_interp (ext : Ext) (x : SVal) (b b' : B) (dt : DataType) (n : Bool) (md : Metadata)
-    (hraw : noRaw x = true) (hwf : WFB b) (hsafe : Safe b) (hshape : Shape b dt n md) (h : push ext b x = .ok b')
-    (hsmall : Lemmas.C03.ViewSmall b') :
+    (hraw : noRaw x = true) (hwf : WFB b) (hsafe : Safe b) (hshape : Shape b dt n md) (h : push ext b x = .ok b') :
     WFB b' ∧ Safe b' ∧ Shape b' dt n md ∧ ∃ lv, dec b' = dec b ++ [lv] ∧ interpDT ext dt n md x = .ok lv := by
   have ht := push_takeRest ext x b b' h
   obtain ⟨hw', lv, hd⟩ := Build.push_appends ext x b b' (noRaw_rawOK x hraw) hwf hsafe h
   exact ⟨hw', Safe.of_takeRest ht hsafe, Shape.of_takeRest ht hshape, lv, hd,
-    Build.push_interp ext x b b' dt n md lv hraw hwf hsafe hshape h hd hsmall⟩
+    Build.push_interp ext x b b' dt n md lv hraw hwf hsafe hshape h hd (WFB_small b' hw')⟩
 
 /-- `build_builder` establishes `Shape` for every covered data type -/
 theorem newDT_shape (dt : DataType) (path : String) (n : Bool) (md : Metadata) (b : B) (hc : covered dt = true)
     (h : newDT path dt n md = .ok b) : Shape b dt n md :=
   Build.newDT_shape dt path n md b hc h
 
-/-- view buffers only grow: `ViewSmall` of the final state holds of every intermediate state -/
+/-- view buffers only grow: `ViewSmall` of the final state holds of every intermediate state (not needed by the
+theorems below any more — `WFB` implies `ViewSmall`, `WFB_small` — kept as a fact about the model) -/
 theorem foldl_push_small (ext : Ext) : ∀ (rows : List SVal) (b b' : B), rows.foldlM (push ext) b = .ok b' →
     Lemmas.C03.ViewSmall b' → Lemmas.C03.ViewSmall b
   | [], b, b', h, hs => by
@@ -204,17 +205,15 @@ theorem foldl_push_small (ext : Ext) : ∀ (rows : List SVal) (b b' : B), rows.f
 
 theorem foldl_push_interp (ext : Ext) (dt : DataType) (n : Bool) (md : Metadata) : ∀ (rows : List SVal) (b b' : B),
     (∀ x ∈ rows, noRaw x = true) → WFB b → Safe b → Shape b dt n md → rows.foldlM (push ext) b = .ok b' →
-    Lemmas.C03.ViewSmall b' →
     ∃ ls, dec b' = dec b ++ ls ∧ All2 (fun lv x => interpDT ext dt n md x = .ok lv) ls rows
-  | [], b, b', _, _, _, _, h, _ => by
+  | [], b, b', _, _, _, _, h => by
     simp [List.foldlM, pure, Except.pure] at h; subst h
     exact ⟨[], by simp, .nil⟩
-  | x :: rest, b, b', hraw, hwf, hs, hsh, h, hsm => by
+  | x :: rest, b, b', hraw, hwf, hs, hsh, h => by
     simp only [List.foldlM] at h
     obtain ⟨b1, h1, h⟩ := (bind_ok _ _ _).1 h
     obtain ⟨hw1, hs1, hsh1, lv, hd1, hi⟩ := push_interp ext x b b1 dt n md (hraw x (by simp)) hwf hs hsh h1
-      (foldl_push_small ext rest b1 b' h hsm)
-    obtain ⟨ls, hd, hall⟩ := foldl_push_interp ext dt n md rest b1 b' (fun y hy => hraw y (by simp [hy])) hw1 hs1 hsh1 h hsm
+    obtain ⟨ls, hd, hall⟩ := foldl_push_interp ext dt n md rest b1 b' (fun y hy => hraw y (by simp [hy])) hw1 hs1 hsh1 h
     exact ⟨lv :: ls, by rw [hd, hd1]; simp, .cons hi hall⟩
 
 /-- **R3.** `runRows` (all records pushed into a fresh root): the rows the root holds are exactly the documented
@@ -222,8 +221,7 @@ rows `interpRow` of the records, in order; the root is a struct of `rows.length`
 is the struct of the `i`-th entries of the columns, and every column has length `rows.length`. -/
 theorem runRows_interp (ext : Ext) (fields : List Field) (rows : List SVal) (root0 root : B)
     (hc : fields.all coveredF = true) (h0 : newRoot fields = .ok root0) (hsafe : Safe root0)
-    (hraw : ∀ x ∈ rows, noRaw x = true) (h : runRows ext fields rows = .ok root)
-    (hsmall : Lemmas.C03.ViewSmall root) :
+    (hraw : ∀ x ∈ rows, noRaw x = true) (h : runRows ext fields rows = .ok root) :
     All2 (fun lv x => interpRow ext fields x = .ok lv) (dec root) rows ∧
     (∀ col ∈ decRoot root, col.length = rows.length) ∧
     ∃ p fs cached next seen, root = .struct p rows.length none fs cached next seen ∧
@@ -233,7 +231,7 @@ theorem runRows_interp (ext : Ext) (fields : List Field) (rows : List SVal) (roo
   simp only [runRows, h0] at h'
   have h' : rows.foldlM (push ext) root0 = .ok root := h'
   obtain ⟨hw0, hd0, ht0⟩ := newRoot_fresh h0
-  obtain ⟨ls, hd, hall⟩ := foldl_push_interp ext _ _ _ rows root0 root hraw hw0 hsafe (newRoot_shape hc h0) h' hsmall
+  obtain ⟨ls, hd, hall⟩ := foldl_push_interp ext _ _ _ rows root0 root hraw hw0 hsafe (newRoot_shape hc h0) h'
   rw [hd0, List.nil_append] at hd
   refine ⟨by rw [hd]; exact hall, hrows.2.2.2, ?_⟩
   obtain ⟨p, bl, c, s, hr0⟩ := newRoot_struct h0
@@ -317,15 +315,14 @@ def exView : B := .bytesView "$.v" .utf8View (some [true]) [packInline [104, 105
 example : WFB exView ∧ Safe exView ∧ Shape exView .utf8View true [] := by
   refine ⟨?_, by simp [exView, Safe], by simp [exView, Shape, viewDT]⟩
   simp only [exView, WFB]
-  refine ⟨by intro bits hb; cases hb; rfl, ?_⟩
+  refine ⟨by intro bits hb; cases hb; rfl, ?_, by decide⟩
   intro d hd; simp at hd; subst hd; decide +kernel
 
-example : ∃ b', push {} exView (.str "thirteen byte") = .ok b' ∧ Lemmas.C03.ViewSmall b' ∧
+example : ∃ b', push {} exView (.str "thirteen byte") = .ok b' ∧
     dec b' = dec exView ++ [.str (strBytes "thirteen byte")] ∧
     interpDT {} .utf8View true [] (.str "thirteen byte") = .ok (.str (strBytes "thirteen byte")) :=
   ⟨.bytesView "$.v" .utf8View (some [true, true]) [packInline [104, 105], packExtern (strBytes "thirteen byte") 0 0]
-      (strBytes "thirteen byte"), by decide +kernel, by simp [Lemmas.C03.ViewSmall, strBytes]; decide +kernel,
-    by decide +kernel, by decide +kernel⟩
+      (strBytes "thirteen byte"), by decide +kernel, by decide +kernel, by decide +kernel⟩
 
 /-- R2 on a dictionary builder (`Dictionary(UInt8, Utf8)` holding "x" once): a known string reuses its key, the
 invariant "values decoded = index entries" (`DictVals`) is part of `WFB` -/
